@@ -106,6 +106,30 @@ var c01Mut = &vlib.Check{
 	},
 }
 
+// c01Families: the grammar families written for the serialisation properties (allOf, Path, or, JSON-RPC names, regex) are
+// building-totality inputs as well: whatever they contain, the build returns a catalog or an error.
+var c01Families = &vlib.Check{
+	Prop: "C01", Name: "families", Quick: 4000, Thorough: 300000,
+	Oracle: vlib.IsoOracle, Inner: c01Inner, Classify: c01Classify,
+	Gen: func(t *rapid.T) *vlib.Case {
+		r := vlib.RapidRnd{T: t}
+		var b []byte
+		switch r.Intn(5) {
+		case 0:
+			b = genAllOfFamily(r)
+		case 1:
+			b = genPathFamily(r)
+		case 2:
+			b = genOrFamily(r)
+		case 3:
+			b = genRPCFamily(r)
+		default:
+			b = genRegexFamily(r)
+		}
+		return &vlib.Case{Project: vlib.SingleFile(b)}
+	},
+}
+
 var c01Soup = &vlib.Check{
 	Prop: "C01", Name: "soup", Quick: 12000, Thorough: 800000,
 	Oracle: vlib.IsoOracle, Inner: c01Inner, Classify: c01Classify,
@@ -248,7 +272,7 @@ var c01Prefix = &vlib.Check{
 	Oracle: vlib.IsoOracle, Inner: c01Inner, Classify: c01Classify,
 }
 
-func init() { vlib.Register(c01Mut, c01Soup, c01Macro, c01Include, c01Roots, c01Prefix, c01LongLines) }
+func init() { vlib.Register(c01Mut, c01Soup, c01Macro, c01Include, c01Roots, c01Prefix, c01LongLines, c01Families) }
 
 func TestC01(t *testing.T) {
 	ev := vlib.Ev("C01")
@@ -360,6 +384,7 @@ func TestC01(t *testing.T) {
 	}
 	t.Run("mutated", c01Mut.Run)
 	t.Run("soup", c01Soup.Run)
+	t.Run("families", c01Families.Run)
 	t.Run("macro-graph", c01Macro.Run)
 	t.Run("include-graph", c01Include.Run)
 	t.Run("long-lines", c01LongLines.Run)
